@@ -368,12 +368,12 @@ type c35Stats struct {
 	soleFirst, soleMiddle, soleLast, soleFetched, maxReqsPerChunk            int
 	neverAskedSuppressed, deliveryPanics                                     int
 	// producer budgets (cases with a small per-producer limit of pending chunk bytes)
-	limitAccepts, fillChunks, fillBytes                                        int
-	fetchFull, fetchNear, fetchOverByOne, fetchFits, fetchOver, fetchUnder      int
-	accBudgetHit, accFull, accNear, accOtherOnly, accBoth, accSecondFetchOver  int
-	faults                                                                   map[string]int
-	shapes                                                                   []string
-	inconclusive                                                             string
+	limitAccepts, fillChunks, fillBytes                                       int
+	fetchFull, fetchNear, fetchOverByOne, fetchFits, fetchOver, fetchUnder    int
+	accBudgetHit, accFull, accNear, accOtherOnly, accBoth, accSecondFetchOver int
+	faults                                                                    map[string]int
+	shapes                                                                    []string
+	inconclusive                                                              string
 }
 
 var c35NeverAskedWitnesses atomic.Int32
